@@ -8,6 +8,7 @@ PersistentMapping / PersistentList / c11_classes.Node for i % 3 == 1 / 2 / 0.  E
 an integer payload and an ordered list of references to other objects.
 
     read i | mod i v | link i j | unlink i j | add i          object level
+    wlink i j                                                  link through a persistent.wref.WeakRef
     commit | abort | sp | rb n | close | open                  transaction / connection level
     commitf rm before|after begin|commit|vote|finish           commit with a failing 2nd resource manager
     commitf store j | commitf vote                             commit with a storage fault (j-th store / vote)
@@ -45,6 +46,17 @@ def errname(e):
 
 class NoState(Exception):
     pass
+
+
+def deref(x):
+    """the target of a persistent weak reference (persistent.wref.WeakRef), any other value as it is"""
+    from persistent.wref import WeakRef
+    if isinstance(x, WeakRef):
+        try:
+            return x()
+        except Exception:
+            return None
+    return x
 
 
 def make_storage(kind, tmpdir, tag, blobs=False):
@@ -136,11 +148,11 @@ class World:
         try:
             if kind == 'M':
                 data = d['data']
-                return data.get('v', 0), [x for k, x in data.items() if k != 'v']
+                return data.get('v', 0), [deref(x) for k, x in data.items() if k != 'v']
             if kind == 'L':
                 data = d['data']
-                return (data[0] if data else 0), list(data[1:])
-            return d['v'], list(d['refs'])
+                return (data[0] if data else 0), [deref(x) for x in data[1:]]
+            return d['v'], [deref(x) for x in d['refs']]
         except KeyError:
             raise NoState()
 
@@ -217,6 +229,24 @@ class World:
             o.refs = o.refs + (t,)
         return 'ok'
 
+    def op_wlink(self, i, j):
+        """like link, but through a persistent weak reference (ZODB stores the target all the same)"""
+        from persistent.wref import WeakRef
+        o, kind, t = self.objs[i], self.kind_of(i), self.objs[j]
+        if self.guard_closed(o):
+            return 'err:closed'
+        self.touch(o, kind)
+        _, refs = self.raw_value(o, kind)
+        if any(x is t for x in refs):
+            return 'ok'
+        if kind == 'M':
+            o['w%d' % j] = WeakRef(t)
+        elif kind == 'L':
+            o.append(WeakRef(t))
+        else:
+            o.refs = o.refs + (WeakRef(t),)
+        return 'ok'
+
     def op_unlink(self, i, j):
         o, kind, t = self.objs[i], self.kind_of(i), self.objs[j]
         if self.guard_closed(o):
@@ -226,12 +256,12 @@ class World:
         if not any(x is t for x in refs):
             return 'ok'
         if kind == 'M':
-            del o['r%d' % j]
+            del o['r%d' % j if ('r%d' % j) in o else 'w%d' % j]
         elif kind == 'L':
-            idx = [k for k, x in enumerate(o.data) if x is t and k > 0][0]
+            idx = [k for k, x in enumerate(o.data) if deref(x) is t and k > 0][0]
             del o[idx]
         else:
-            o.refs = tuple(x for x in o.refs if x is not t)
+            o.refs = tuple(x for x in o.refs if deref(x) is not t)
         return 'ok'
 
     def op_add(self, i):
@@ -403,6 +433,8 @@ class World:
                 r = self.op_mod(int(t[1]), int(t[2]))
             elif t[0] == 'link':
                 r = self.op_link(int(t[1]), int(t[2]))
+            elif t[0] == 'wlink':
+                r = self.op_wlink(int(t[1]), int(t[2]))
             elif t[0] == 'unlink':
                 r = self.op_unlink(int(t[1]), int(t[2]))
             elif t[0] == 'add':
@@ -440,6 +472,12 @@ def run_real(case, tmpdir, tag='w', blobs=False):
     if case.get('family') == 'multidb':
         import c11_multidb
         return c11_multidb.run_real(case, tmpdir, tag)
+    if case.get('family') == 'explicit':
+        import c11_multidb
+        return c11_multidb.run_real_x(case, tmpdir, tag)
+    if case.get('family') == 'blobs':
+        import c12_blobs
+        return c12_blobs.run_real(case, tmpdir, tag)
     w = World(case, tmpdir, tag, blobs)
     try:
         out = ['ok | ' + w.vector()]          # observation of the `reset` line
@@ -559,6 +597,8 @@ class Oracle:
     def step(self, op):
         t = op.split()
         k = t[0]
+        if k == 'wlink':
+            k = 'link'      # a weak reference adds and stores its target exactly like an ordinary one
         if k in ('mod', 'link', 'unlink', 'read') and int(t[1]) in self.lost:
             return 'err:NoState'        # (C12 mode only) the object has no state any more
         if k in ('mod', 'link', 'unlink'):
@@ -777,6 +817,12 @@ def judge(case, real, pid):
     if case.get('family') == 'multidb':
         import c11_multidb
         return c11_multidb.judge(case, real)
+    if case.get('family') == 'explicit':
+        import c11_multidb
+        return c11_multidb.judge_x(case, real)
+    if case.get('family') == 'blobs':
+        import c12_blobs
+        return c12_blobs.judge(case, real)
     o = Oracle(case['n'], pid)
     try:
         o.lastkind = None
@@ -895,10 +941,12 @@ def gen_case(rng, pid, size, kind):
                 ops.append('ext %d %d' % (min(e, n - 1), 10 + rng.randrange(10)))
             elif r < 0.99:
                 c = rng.random()
-                if c < 0.6:
+                if c < 0.4:
                     ops.append('commitf ' + rng.choice(RM_FAILS))
-                elif c < 0.9:
+                elif c < 0.6:
                     ops.append('commitf store %d' % rng.choice([0, 0, 1, 1, 2, 3]))
+                elif c < 0.9:
+                    ops.append('commitf pickle %d' % rng.randrange(1, n))
                 else:
                     ops.append('commitf vote')
                 nsp = 0
@@ -925,8 +973,22 @@ def gen_scenario(rng, pid, kind):
         # a commit that fails while the state of one object is pickled — the registered container, an
         # implicitly added object in the middle of the writer's stack, or the last one — then the same
         # objects are linked again (the "repair" touches no object), committed, and read elsewhere
-        t = rng.randrange(3)
-        if t == 0:
+        t = rng.randrange(5)
+        if t >= 3:
+            # a NEW object reached through a persistent weak reference that is pickled before any
+            # ordinary reference to it (or without one in this transaction): it is stored all the same
+            h = rng.choice([0, 0, c])
+            ops = ['link 0 %d' % c, 'commit'] if (h == c or rng.random() < 0.3) else []
+            ops += ['wlink %d %d' % (h, a)]
+            if rng.random() < 0.5:
+                ops += ['link %d %d' % (a, b)]
+            if t == 3:
+                ops += ['link %d %d' % (h, a)] if rng.random() < 0.5 else ['link 0 %d' % b]
+                ops += ['commit', 'peek %d' % a]
+            else:
+                ops += ['commit', 'peek %d' % a, 'link %d %d' % (rng.choice([0, h]), a), 'mod %d %d' % (a, val()),
+                        'commit']
+        elif t == 0:
             ops = ['link 0 %d' % a, 'link %d %d' % (a, b), 'link %d %d' % (b, c)]
             if rng.random() < 0.5:
                 ops += ['link %d %d' % (a, c)]
@@ -946,8 +1008,18 @@ def gen_scenario(rng, pid, kind):
             ops.insert(pos, rng.choice(['read %d' % i, 'mod %d %d' % (i, val()), 'peek %d' % i]))
         ops += ['read %d' % i for i in range(n)] + ['commit'] + ['peek %d' % i for i in range(n)]
         return dict(kind=kind, n=n, ops=ops)
-    t = rng.randrange(7)
-    if t == 6:      # an object that reloads itself when invalidated (oracle only: not in the Lean model)
+    t = rng.randrange(8)
+    if t == 7:      # the commit's own checkpoint fails (unpicklable object) after an earlier savepoint, when
+        #             another new object of the same step is already stored (the stack is LIFO)
+        ops = ['mod 0 %d' % val()]
+        if rng.random() < 0.5:
+            ops += ['link 0 %d' % c]
+        ops += ['sp', 'link 0 %d' % a, 'link 0 %d' % b]
+        if rng.random() < 0.4:
+            ops += ['link %d %d' % (b, a)]
+        ops += ['commitf pickle %d' % rng.choice([a, a, b]), 'link 0 %d' % a, 'link 0 %d' % b,
+                rng.choice(['commit', 'sp', 'abort'])]
+    elif t == 6:      # an object that reloads itself when invalidated (oracle only: not in the Lean model)
         v1, v2 = val(), 10 + val()
         ops = ['link 0 3', 'mod 3 %d' % v1, 'commit', 'mod 3 %d' % v2, 'sp']
         if rng.random() < 0.5:
@@ -956,7 +1028,7 @@ def gen_scenario(rng, pid, kind):
                 rng.choice(['abort', 'abort', 'commit']), 'read 3', 'mod 0 %d' % val(), 'commit', 'peek 3']
         ops += ['read %d' % i for i in range(4)]
         return dict(kind=kind, n=4, ops=ops, selfact=[3])
-    if t == 0:      # conflict while the final commit replays the savepoint store
+    elif t == 0:      # conflict while the final commit replays the savepoint store
         ops = ['link 0 %d' % a, 'link 0 %d' % b, 'commit', 'mod 0 %d' % val(), 'mod %d %d' % (a, val()),
                'mod %d %d' % (b, val()), 'sp']
         if rng.random() < 0.5:
@@ -1099,6 +1171,12 @@ def run_check(pid, argv=None):
         import c11_multidb
         for m in range(60 if not ck.thorough else 1500):
             cases.append(c11_multidb.gen(ck.rng, kinds[m % 3]))
+        for m in range(45 if not ck.thorough else 1000):
+            cases.append(c11_multidb.gen_x(ck.rng, kinds[m % 3]))
+    if pid == 'C12' and not ck.replay_path:
+        import c12_blobs
+        for m in range(60 if not ck.thorough else 2000):
+            cases.append((c12_blobs.gen_scenario if m % 3 == 2 else c12_blobs.gen)(ck.rng, kinds[m % 3]))
     # model: one driver process for everything (several in the thorough tier)
     work = [(c, ck.tmp, pid) for c in cases]
     if ck.thorough and len(cases) > 2000:
